@@ -1736,3 +1736,83 @@ func ruleSliceBoundOwnLength(c *eng.Ctx) {
 		})
 	}
 }
+
+// R10.12 [C10]
+func rulePageRangeInclusive(c *eng.Ctx) {
+	const R = "R10.12-RANGE-INCLUSIVE"
+	c.Rule(R, "PageRange(start, end) selects exactly the pages start..end, both ends included: the function touches its two arguments only through comparisons and +1 steps, so evaluating it for the orderings start == end, start+1 == end and start+2 == end decides which page numbers reach the selection", 3, 0)
+	name := "tabula.(*Extractor).PageRange"
+	fn := c.P.Func(name)
+	if fn == nil {
+		c.Undec(R, name, token.NoPos, "anchor not found")
+		return
+	}
+	var ps, pe *ssa.Parameter
+	for _, p := range fn.Params {
+		if bt, ok := p.Type().Underlying().(*types.Basic); ok && bt.Kind() == types.Int {
+			if ps == nil {
+				ps = p
+			} else if pe == nil {
+				pe = p
+			}
+		}
+	}
+	var app *ssa.Call
+	var elem ssa.Value
+	for _, ci := range eng.Calls(fn, false, func(nm string, _ ssa.CallInstruction) bool { return nm == "builtin:append" }) {
+		call, ok := ci.(*ssa.Call)
+		if !ok || len(call.Call.Args) != 2 {
+			continue
+		}
+		// append(s, v) is append(s, tmp[:]) with tmp[0] = v
+		if sl, ok := call.Call.Args[1].(*ssa.Slice); ok {
+			if al, ok := sl.X.(*ssa.Alloc); ok {
+				for _, r := range *al.Referrers() {
+					if ia, ok := r.(*ssa.IndexAddr); ok {
+						for _, rr := range *ia.Referrers() {
+							if st, ok := rr.(*ssa.Store); ok {
+								if bt, ok := st.Val.Type().Underlying().(*types.Basic); ok && bt.Kind() == types.Int {
+									app, elem = call, st.Val
+								}
+							}
+						}
+					}
+				}
+			}
+		}
+	}
+	if ps == nil || pe == nil || app == nil {
+		c.Undec(R, name, fn.Pos(), "cannot find the two bounds and the append of a page number")
+		return
+	}
+	for _, span := range []int64{0, 1, 2} {
+		const start = 4
+		leaf := func(v ssa.Value) (int64, bool) {
+			switch v {
+			case ssa.Value(ps):
+				return start, true
+			case ssa.Value(pe):
+				return start + span, true
+			}
+			return 0, false
+		}
+		vals, unknown := eng.EvalAtAll(fn, leaf, app, elem)
+		want := map[int64]bool{}
+		for k := int64(start); k <= start+span; k++ {
+			want[k] = true
+		}
+		ok := !unknown && len(vals) == len(want)
+		for k := range want {
+			if !vals[k] {
+				ok = false
+			}
+		}
+		var got []string
+		for k := range vals {
+			got = append(got, fmt.Sprint(k))
+		}
+		sort.Strings(got)
+		c.Check(ok, R, fmt.Sprintf("%s#span%d", name, span), app.Pos(), "selects start..end inclusive",
+			fmt.Sprintf("PageRange(%d, %d) adds pages {%s} to the selection instead of %d..%d (a one-page range selecting nothing means the whole document)", start, start+span, strings.Join(got, ","), start, start+span))
+	}
+}
